@@ -54,7 +54,8 @@ func (c *Conn) addImport(id importID) *capnp.Client {
 		ent.wireRefs++
 		client, ok := ent.wc.AddRef()
 		if !ok {
-			ent.generation++
+			c.importGen++
+			ent.generation = c.importGen
 			client = capnp.NewClient(&importClient{
 				c:          c,
 				id:         id,
@@ -64,13 +65,19 @@ func (c *Conn) addImport(id importID) *capnp.Client {
 		}
 		return client
 	}
+	// Generation numbers are never reused on a connection: a client of
+	// an entry that has since been removed must not match the entry
+	// created when the same ID is imported again.
+	c.importGen++
 	client := capnp.NewClient(&importClient{
-		c:  c,
-		id: id,
+		c:          c,
+		id:         id,
+		generation: c.importGen,
 	})
 	c.imports[id] = &impent{
-		wc:       client.WeakRef(),
-		wireRefs: 1,
+		wc:         client.WeakRef(),
+		wireRefs:   1,
+		generation: c.importGen,
 	}
 	return client
 }
